@@ -9,6 +9,34 @@ TRUST = ("TLC 1.8 + CommunityModules; CPython 3.12 asyncio semantics under the d
          "aiohttp code paths only (no C extensions are built in this tree)")
 
 CHECKS = {
+ "C02": dict(
+   technique="Exhaustive TLC enumeration of the implementation-shaped framing / keep-alive decision tables of both ends "
+             "(WireDecision.tla) against the RFC 9112 section 6.3 body-length oracle, bound to the code by TLC trace validation "
+             "(WireDecisionTrace.tla) of end-to-end executions (real ClientSession <-> segmenting relay <-> real "
+             "RequestHandler/web.Application) of the same input combinations",
+   text="All 15,552 response-side and 384 request-side combinations are enumerated by TLC (FramingTruthful, ReceiverFollowsRfc, "
+        "CloseAgree, NoHang; ideal and as-coded configurations, each remaining deviation exhibited separately); the same "
+        "combinations (pairwise cover in quick, all in thorough) are executed end to end under several segmentations and every "
+        "execution is judged in TLA+: request as issued vs as seen by the handler, response as returned vs as seen by the caller, "
+        "wire framing vs the oracle, both ends' persistence decision, nobody left waiting.",
+   design_ref="DESIGN.md §4 C02",
+   note="sizes symbolic in the model; secondary dimensions (URL shape, header sets, cookies, sizes around 2 KiB / 64 KiB, reason) "
+        "randomised; in-memory transports with FINs delivered at loop idle (a legal schedule used as observation device); body "
+        "digests CRC-32 after a one-shot zlib decode by the harness (brotli/zstd not exercised); independent wire splitter whose "
+        "arithmetic is re-checked in TLA+; " + TRUST),
+ "C04": dict(
+   technique="TLC exhaustively checks an explicit TLA+ model of the header-serialisation rule and of all StreamWriter call sequences "
+             "(HttpWriter.tla); the same TLA+ clause functions then judge, via an independent in-TLA+ CRLF splitter and chunk "
+             "decoder, every recorded execution of the real aiohttp serialisation paths and writer (HttpWriterTrace.tla)",
+   text="Bounded exhaustive model checking (class strings of length <= 3 over 13 classes x 13 positions; writer call sequences of "
+        "depth <= 6) plus conformance by trace validation: 32 public positions, every code point below 0x800 in every position "
+        "(all 0x110000 in the raw positions in thorough), ~2.7k call sequences (transition cover + simulated + random) on the real "
+        "StreamWriter and ~1.4k complete messages over 13 payload kinds; CR/LF anywhere forces refusal with zero bytes written, "
+        "emitted bytes must split into exactly the supplied lines, chunked wire must decode to exactly the written data, declared "
+        "lengths must equal the bytes written.",
+   design_ref="DESIGN.md §4 C04",
+   note="yarl trusted for the request-target; harness inflates compressed bodies (zlib) and TLA+ compares; Python upper/lower for "
+        "method and charset; only the pure-Python _py_serialize_headers is bound; multipart/FormData codec correctness is C19; " + TRUST),
  "C05": dict(
    technique="Implementation-shaped TLA+ model of one RequestHandler connection (ServerConn.tla) checked exhaustively by TLC over "
              "all segmentations, handler behaviours, disconnect points, write pauses and timers for small constants; TLC-simulated "
